@@ -342,6 +342,10 @@ def mutate_value(
 
     # If `transform` is provided, transform `value`
     if transform:
+        if not mutate_safe:
+            # The transform is user code: it may edit what it is given, or
+            # return (parts of) it. Never hand it the live value.
+            value = protect_via_deepcopy(value)
         value = transform(value)
 
     # If `attr_transforms` is provided, transform attributes
